@@ -1,4 +1,5 @@
 import Gbo.Proofs.Bubble
+import Gbo.Proofs.ContourLoop
 import Gbo.Proofs.Orders
 /-
   C03 — every call on valid input returns.  Clauses that carry theorems: the loops whose termination
@@ -56,5 +57,17 @@ def exArena : Arena :=
 
 /-- the conclusion is non-trivial: four events out of order are put in order -/
 example : bubbleSort exArena 18 #[1, 3, 0, 2] = some #[0, 2, 1, 3] := by decide +kernel
+
+/-- `connect_edges`, the inner `loop` that follows one contour: every round marks a result event that was
+    not processed before, so it ends after at most `result_events.len()` rounds — the fuel the model gives it
+    (`res.size + 1`) is never used up, for every arena, iteration map and start position.  (The helper
+    `get_next_pos` has its own loop and its own fuel message.) -/
+theorem C03_contour_loop_terminates (res map : Array Nat) (contourId : Int) (initial : Pt) (st : CE) (pos : Nat)
+    (hsz : st.processed.size = res.size) (hp : st.processed[pos]! = false) :
+    contourLoop res map contourId initial (res.size + 1) st pos ≠ .error (.fuel "connect_edges contour loop") := by
+  apply contourLoop_fuel res map contourId initial res.size st pos hsz hp
+  unfold unproc
+  rw [← hsz]
+  exact Array.count_le_size
 
 end Gbo.Props
